@@ -55,13 +55,15 @@ def tasks_c01(tier, seed):
         ts += explore("Q3", CFG_DEFAULT, 1, timeout="60s") + explore("Q3", alt, 2, shards=4, timeout="60s")
         ts += explore("Q6", alt, 2, shards=2, timeout="60s") + explore("Q6", "w1-in4-default-direct", 1, shards=2, timeout="60s")
         ts += explore("Q1", CFG_DEFAULT, 0, shards=1, timeout="60s")
+        # nested submissions: a callback is itself a producer for its own and another group
+        ts += explore("Q8", "w1-in4-default-direct", 2, timeout="60s") + explore("Q8", alt, 2, timeout="60s") + explore("Q8", CFG_DEFAULT, 1, shards=2, timeout="60s")
         # Q5: query requests, expiry and a concurrent callback of the same (non-default) group
         ts += explore("QEconc", CFG_DEFAULT, 1, shards=8, timeout="100s") + explore("QE1-model", CFG_DEFAULT, 1, shards=2, timeout="100s")
         # expiry while Shutdown waits for a callback of the same group; restart after Shutdown dropped queued work
         ts += explore("QEshutdownBusy", "w1-in4-default-direct", 2, shards=4, timeout="100s")
         ts += explore("S8", "w1-in4-default-direct", 2, shards=1, timeout="100s") + explore("S8r", "w1-in4-default-direct", 2, shards=2, timeout="100s")
     else:
-        T = "10m"
+        T = "5m"
         for c in cfg_axis():
             ts += explore("Q1s", c, 2, shards=8, timeout=T)
             ts += explore("Q2", c, 3, shards=2, timeout=T)
@@ -71,6 +73,8 @@ def tasks_c01(tier, seed):
         ts += explore("Q6", alt, 2, shards=4, timeout=T) + explore("Q6", "w1-in4-default-direct", 2, shards=8, timeout=T)
         ts += explore("Q6", CFG_DEFAULT, 1, shards=8, timeout=T)
         ts += explore("Q1", CFG_DEFAULT, 1, shards=16, timeout=T)
+        for c in (CFG_DEFAULT, alt, "w3-in1-literal-mount"):
+            ts += explore("Q8", c, 2, shards=4, timeout=T)
         ts += explore("Q1s", "w1-in4-default-direct", 3, shards=16, timeout=T)
         ts += explore("QEconc", CFG_DEFAULT, 2, shards=16, timeout=T) + explore("QE1-model", CFG_DEFAULT, 2, shards=8, timeout=T)
         for sc in ("QEshutdownBusy", "S8", "S8r"):
@@ -94,12 +98,10 @@ def tasks_c03(tier, seed):
                 ts += explore(s, CFG_DEFAULT, 1 if big else 2, shards=2 if big else 1, timeout="100s")
     else:
         for s in scens:
-            ts += explore(s, "w1-in4-default-direct", 3, shards=8, timeout="10m")
-            for c in (CFG_DEFAULT, "w3-in1-literal-mount"):
-                if s == "Q6":
-                    ts += explore(s, c, 1, shards=8, timeout="10m")
-                else:
-                    ts += explore(s, c, 2, shards=8, timeout="10m")
+            ts += explore(s, "w1-in4-default-direct", 3, shards=8, timeout="5m")
+            ts += explore(s, CFG_DEFAULT, 1 if s == "Q6" else 2, shards=8, timeout="5m")
+            if s.startswith("S3") or s in ("S4", "S4q", "S7", "S10", "S11"):
+                ts += explore(s, "w3-in1-literal-mount", 2, shards=4, timeout="5m")
     return ts
 
 
@@ -151,8 +153,8 @@ def tasks_c15(tier, seed):
             if not big:
                 ts += explore(s, CFG_DEFAULT, 1, shards=1, timeout="60s")
         else:
-            ts += explore(s, w1, 3, shards=8, timeout="10m")
-            ts += explore(s, CFG_DEFAULT, 2, shards=8, timeout="10m")
+            ts += explore(s, w1, 3, shards=8, timeout="5m")
+            ts += explore(s, CFG_DEFAULT, 2, shards=8, timeout="5m")
     return ts
 
 
